@@ -109,7 +109,18 @@ def run(check):
       r_o.ok('rule list built by append only', lr.loc(lp.owner))
     in_loop = [c for c in muts if any(x is c for x in ast.walk(lp.owner))]
     after = [c for c in muts if c not in in_loop and c.lineno > lp.owner.end_lineno]
-    if in_loop and after and all(dotted(c.args[0]) == 'defaultRule' for c in after):
+    def is_default_var(c):
+      a = c.args[0] if c.args else None
+      if not isinstance(a, ast.Name):
+        return False
+      nodes = g.node_containing(c)
+      if not nodes:
+        return False
+      vals = [value_assigned(d, a.id) for d in reaching_defs(g, a.id, nodes[0]) if d is not g.entry]
+      # assigned a RelayRule whose condition is the always-true lambda (the section marked `default`)
+      return any(isinstance(v, ast.Call) and dotted(v.func) == 'RelayRule' and any(
+        isinstance(x, ast.Lambda) and isinstance(x.body, ast.Constant) and x.body.value is True for x in ast.walk(v)) for v in vals)
+    if in_loop and after and all(is_default_var(c) for c in after):
       r_o.ok('pattern rules appended in section order, default rule after the loop', lr.loc(after[0]))
     else:
       r_o.violate('default rule not last', lr, (after or in_loop or [lp.owner])[0], 'pattern rules are not appended inside the '
